@@ -51,6 +51,7 @@ type frame struct {
 }
 
 type Exec struct {
+	lastOrderField *TField
 	s      *Session
 	fn     *ssa.Function
 	con    *Contract
@@ -314,6 +315,14 @@ func (x *Exec) panicPath(st *State, fr *frame, why string) {
 func (x *Exec) assumeOrPanic(st *State, fr *frame, cond, why string) {
 	if cond == "true" {
 		return
+	}
+	if x.con != nil && x.con.PanicHyp != nil && strings.HasPrefix(why, "panic@") && x.entry != nil {
+		env := x.topEnv(x.entry, x.fn.String()+" nopanic-lib")
+		env.cur = x.entry
+		hyp := env.term(x.con.PanicHyp.Sx)
+		x.nSafe++
+		x.oblig(&Obligation{Name: fmt.Sprintf("safe.%s.%s#%d", x.con.PanicHyp.Label, strings.TrimPrefix(why, "panic@"), x.nSafe), Kind: "safe", Label: x.con.PanicHyp.Label,
+			Hyps: append(append([]string(nil), st.pc...), hyp), Goal: cond, Trace: strings.Join(st.trace, " "), Src: why + " under " + x.con.PanicHyp.Src})
 	}
 	if x.con != nil && x.con.NoPanic {
 		x.nSafe++
